@@ -17,7 +17,7 @@ type proxyTraceResult struct {
 	conns  string // in-flight counter not 1 during an attempt or not 0 afterwards
 	fails  string // failure not recorded on a backend with fail_timeout
 	fresh  string // an attempt starts from a URL or header the previous attempt's director / header rules had modified
-	buffer string // the body is buffered under other conditions than {more than one backend, retries enabled}
+	buffer string // the body is buffered under other conditions than {retries enabled}
 	large  string // an exceeded body limit (while buffering, or reported by the backend round trip) is not answered 413
 	other  string
 	n      int
@@ -271,12 +271,14 @@ func proxyTraces(h H) *proxyTraceResult {
 				res.retry = msg
 			}
 		}
-		buffered := sc.hostCount > 1 && sc.tryDuration != 0
+		// a further attempt can follow whenever retries are enabled — at another backend, or at the same one once its
+		// fail_timeout has passed (the only possibility with a single backend) — and must find the whole body
+		buffered := sc.tryDuration != 0
 		if (bufferings == 1) != buffered && res.buffer == "" {
-			res.buffer = fmt.Sprintf("%s (%d backends, try_duration %d): the body is buffered %d times; specification: exactly once when there is more than one backend and retries are enabled, never otherwise", sc.desc, sc.hostCount, sc.tryDuration, bufferings)
+			res.buffer = fmt.Sprintf("%s (%d backends, try_duration %d): the body is buffered %d times; specification: exactly once when retries are enabled (whatever the number of backends: a single backend is retried after its fail_timeout), never otherwise", sc.desc, sc.hostCount, sc.tryDuration, bufferings)
 		}
 		for i, a := range tries {
-			if buffered && !a.rewound && res.body == "" {
+			if (buffered || i > 0) && !a.rewound && res.body == "" {
 				res.body = fmt.Sprintf("%s: attempt %d is made without the buffered body having been rewound (it receives what the previous attempt left)", sc.desc, i+1)
 			}
 			if c, ok := a.conns.(aint); (!ok || c != 1) && res.conns == "" {
